@@ -112,7 +112,7 @@ class Parser:
     def factor(self):
         k, v = self.next()
         if k == "num":
-            return ("num", Fraction(v))
+            return ("num", Fraction(v), "." not in v)      # third entry: integer literal
         if k != "id":
             raise CodeError(f"unexpected token {v!r}")
         if v == "sqrt":
@@ -202,7 +202,29 @@ def parse_perm(s):
     return out
 
 
-def parse_program(text):
+def cpp_scalars(node):
+    """C++ arithmetic for the scalar literals of a libtensor line: an integer literal divided by
+    (multiplied with) an integer literal is an integer (division truncates towards zero); as soon
+    as one operand is a floating point literal (or anything else) the usual arithmetic applies."""
+    k = node[0]
+    if k in ("mul", "div"):
+        a, b = cpp_scalars(node[1]), cpp_scalars(node[2])
+        if a[0] == "num" and b[0] == "num" and len(a) > 2 and len(b) > 2 and a[2] and b[2]:
+            if k == "mul":
+                return ("num", a[1] * b[1], True)
+            if b[1] == 0:
+                raise CodeError("integer division by zero")
+            q = abs(a[1]) // abs(b[1])
+            return ("num", Fraction(q if (a[1] >= 0) == (b[1] >= 0) else -q), True)
+        return (k, a, b)
+    if k in ("contract", "einsum"):
+        return (k, node[1], [cpp_scalars(x) for x in node[2]])
+    if k == "dot":
+        return (k, [cpp_scalars(x) for x in node[1]])
+    return node
+
+
+def parse_program(text, cpp=False):
     blocks = []
     for chunk in text.split("\n\n"):
         lines = [ln for ln in chunk.split("\n") if ln.strip()]
@@ -214,7 +236,10 @@ def parse_program(text):
         if not m:
             raise CodeError(f"unexpected line {lines[1]!r}")
         perm = parse_perm(m.group(1))
-        blocks.append((perm, [parse_line(ln) for ln in lines[2:]]))
+        parsed = [parse_line(ln) for ln in lines[2:]]
+        if cpp:
+            parsed = [(sg, cpp_scalars(nd)) for sg, nd in parsed]
+        blocks.append((perm, parsed))
     return blocks
 
 
